@@ -278,7 +278,7 @@ def _instances():
     return {
         "Jump": Jump(3, True), "Name": Name("n", 2), "Varname": Varname("v", 1), "Cellvar": Cellvar("c", 0), "Freevar": Freevar("f"), "NoArg": NoArg(5),
         "Constant(int)": Constant(7, 1), "Constant(tuple)": Constant((1, (2.5, "s"), b"b", None, ...), None), "Constant(frozenset)": Constant(frozenset([1, "a"])),
-        "Constant(big)": Constant(2 ** 70), "Constant(bytes needing + and / in base64)": Constant((b"\xff\xfe?>", b"", b"\x00" * 5)),
+        "Constant(big)": Constant(2 ** 70), "Constant(negative and boundary ints)": Constant((-(2 ** 53), -(2 ** 53) - 1, -(2 ** 70), 2 ** 53, 2 ** 53 + 1, -(2 ** 53) + 1, 2 ** 53 - 1, -1, 0)), "Constant(bytes needing + and / in base64)": Constant((b"\xff\xfe?>", b"", b"\x00" * 5)),
         "Constant(mixed frozenset)": Constant(frozenset([1, "a", None, b"a", (1, 2)])), "Constant(float-specials)": Constant((float("inf"), float("-inf"), -0.0, 1j)),
         "Instruction": Instruction("OP", Name("x"), 3, 10, (1, 2)), "Instruction(int arg)": Instruction("CALL", 300, None, None),
         "Instruction(no arg, line offsets)": Instruction("POP_TOP", NoArg(), None, 7, (0, 3)),
@@ -372,6 +372,16 @@ def h_positions(ctx, cfg):
             doc = json.loads(json.dumps(J.value_to_json(v), allow_nan=False))
             errs = list(validator.iter_errors(doc))
             ctx.prove("schema_valid[%s]" % name, z3.BoolVal(not errs), detail=errs[0].message[:200] if errs else None)
+    # ... and the definition the schema publishes for each data class accepts the document of that class's representatives (an instruction operand also
+    # matches the catch-all NoArg alternative inside a whole document, so the definitions are validated one by one)
+    defs = code_data.JSON_SCHEMA.get("definitions", {})
+    for name, v in inst.items():
+        dname = type(v).__name__
+        if dname not in defs or name == "AdditionalLine(None)":      # a line-less additional line cannot come out of decoding (C07 speaks of decoded/normalized data)
+            continue
+        doc = json.loads(json.dumps(J.value_to_json(v), allow_nan=False))
+        errs = list(jsonschema.Draft7Validator({"$ref": "#/definitions/" + dname, "definitions": defs}).iter_errors(doc))
+        ctx.prove("definition_accepts_its_own_documents[%s]" % name, z3.BoolVal(not errs), detail=("%s: %s" % (list(errs[0].absolute_path), errs[0].message[:160])) if errs else None)
     # defaults are omitted
     ctx.prove("defaults_omitted", z3.BoolVal(J.value_to_json(Name("n")) == {"name": "n"} and J.value_to_json(Instruction("X")) == {"name": "X"}))
 
